@@ -204,15 +204,10 @@ Definition bit_input_bit : iospec :=
                 | [_], c :: _ => Some (IoDone [c mod 2] 0 [] 1 [])
                 | [_], [] => Some (IoEof [])
                 | _, _ => None end.
-(*   Effectively inputs an 8*n bits little endian number into dst[:8n].       (n = 1: input one byte into dst[:8]) *)
+(*   inputs n bytes into dst[:8n]: the first byte read becomes the MOST significant byte of the 8*n bits number
+     (i.e. the input is read as a big endian number; each byte is stored lsb first, as in bit.input dst).
+     (n = 1, `def input dst`: input one byte into dst[:8] (lsb first)) *)
 Definition bit_input (n : N) : iospec :=
-  fun vs inb => match vs with
-                | [_] => if len inb <? n then Some (IoEof [])
-                         else Some (IoDone [le_val 256 (firstn (N.to_nat n) inb)] 0 [] (8 * n) [])
-                | _ => None end.
-
-(*   what the library does: the FIRST byte read becomes the MOST significant one (known finding F24, see the guard below) *)
-Definition bit_input_msf (n : N) : iospec :=
   fun vs inb => match vs with
                 | [_] => if len inb <? n then Some (IoEof [])
                          else Some (IoDone [le_val 256 (rev (firstn (N.to_nat n) inb))] 0 [] (8 * n) [])
@@ -402,11 +397,18 @@ Definition hex_copy_bytes (k : N) : iospec :=
     else pr (overwrite (firstn (N.to_nat cnt) s) d ++ s ++ [cnt]) [].
 
 (* ---- exact inverses, composed: read then print (two calls in one block) ---- *)
-(*   hex.input n, x ; hex.print n, x     and     bit.input n, x ; bit.print n, x :   the n bytes read are echoed *)
+(*   hex.input n, x ; hex.print n, x :   the n bytes read are echoed *)
 Definition echo_bytes (n : N) : iospec :=
   fun vs inb => match vs with
                 | [_] => if len inb <? n then Some (IoEof [])
                          else let bs := firstn (N.to_nat n) inb in Some (IoDone [le_val 256 bs] 0 bs (8 * n) [])
+                | _ => None end.
+(*   bit.input n, x ; bit.print n, x :   bit.input stores the first byte read as the most significant one and bit.print
+     prints from the least significant byte: the n bytes read come out in REVERSE order *)
+Definition echo_bytes_rev (n : N) : iospec :=
+  fun vs inb => match vs with
+                | [_] => if len inb <? n then Some (IoEof [])
+                         else let bs := rev (firstn (N.to_nat n) inb) in Some (IoDone [le_val 256 bs] 0 bs (8 * n) [])
                 | _ => None end.
 (*   hex.input_dec_int n, x, error ; hex.print_dec_int n, x :   the canonical text of the number read (mod 16^n, signed) is
      printed; nothing is printed on the error exit *)
@@ -455,10 +457,5 @@ Definition io_twice (nv mix : N) (S : iospec) : iospec :=
     | r => r
     end.
 
-(* ---- known-defect predicates (each one is reported and listed; see the `_refuted` examples generated by ./check C09) ---- *)
-(* F24: bit.input n stores the first byte read as the most significant one: differs from the documented little-endian
-   number exactly when the first n bytes are not a palindrome *)
-Fixpoint nlist_eqb' (a b : list N) : bool :=
-  match a, b with [], [] => true | x :: a', y :: b' => (x =? y) && nlist_eqb' a' b' | _, _ => false end.
-Definition defect_bit_input_order (n : N) (vs inb : list N) : bool :=
-  (n <=? len inb) && negb (nlist_eqb' (firstn (N.to_nat n) inb) (rev (firstn (N.to_nat n) inb))).
+(* ---- known-defect predicates: none at present.  (The bit.input n byte order and the bit.print_as_digit n doc line, found with
+   this check, were resolved in the repo by documentation fixes; guarded_io above stays available for the next one.) *)
